@@ -274,6 +274,12 @@ func runC16(r *evid.Run) {
 			}
 		}
 	}
+	// escaped metacharacters in patterns, names that contain them
+	for _, in := range patternLists(2, c10EscPatterns) {
+		for _, ex := range patternLists(1, c10EscPatterns) {
+			cases = append(cases, c16Case{Tree: c10EscTree(), Include: in, Exclude: ex, Dst: "empty"}, c16Case{Tree: c10EscTree(), Include: ex, Exclude: in, Dst: "empty"})
+		}
+	}
 	// hard-link groups spread over selected and unselected names: every partition of the four files of the first
 	// pattern tree, lists of length <=1 on both sides
 	for _, lab := range fsmodel.Partitions(4) {
